@@ -144,3 +144,48 @@ func sliceSources(v ssa.Value) []ssa.Value {
 	walk(v, 0)
 	return out
 }
+
+// c08WrapStorage: the matching buffer of a connection the server accepted is a pooled array that goes back to the pool
+// when the handler chain returns. A Connection made by Wrap can live longer than that (the branch of a tee keeps
+// matching and reading after the main chain has returned; the connection handed to a wrapped listener) and two
+// Connections wrapped from one (tee's next and branch) would prefetch into one array: Wrap therefore gives the new
+// Connection no storage of the receiver's buffer, drained or not. Evaluated over the same buffer states as C01.R5.
+func c08WrapStorage(c *Ctx, r *Report, rule string) {
+	r.rule(rule, "Wrap, evaluated over the receiver's buffer states (empty, drained, partly read, unread): the new connection's buffer is never a slice of the receiver's buffer - that array is the server's pooled one, which goes back to the pool when the chain returns while a wrapped connection (a tee branch) may still be matching on it, and two connections wrapped from one would prefetch into the same array", 4)
+	wrapName := "layer4.(*Connection).Wrap"
+	fn := c.Fn(wrapName)
+	if fn == nil {
+		r.bad(rule, wrapName, "exists", "-", "function not found")
+		return
+	}
+	for _, w := range readWitnesses {
+		sc := &Scenario{
+			Name:   fmt.Sprintf("Wrap:%s(len=%d,off=%d)", w.name, w.l, w.o),
+			Heap:   map[string]SV{"recv.matching": symBool(false), "recv.buf": symSliceCap("recv.buf", w.l, 2048), "recv.offset": symInt(w.o)},
+			Params: map[string]SV{"recv": symRef("recv", false), "p0": symRef("conn", false)},
+			Call: func(callee string, args []SV, ev *symEval, st *symState) (SV, bool) {
+				if strings.HasPrefix(callee, "(*sync/atomic.") {
+					return symOpaque("atomic"), true
+				}
+				return SV{}, false
+			},
+		}
+		paths, err := evalPaths(fn, sc)
+		if err != nil || len(paths) == 0 {
+			r.bad(rule, wrapName, sc.Name, c.pos(fn.Pos()), fmt.Sprintf("undecided: %v", err))
+			continue
+		}
+		var problems []string
+		for _, p := range paths {
+			for k, hv := range p.Heap {
+				if !strings.HasSuffix(k, ".buf") || !strings.HasPrefix(k, "new ") {
+					continue
+				}
+				if base, _ := sliceBase(hv.Desc); base == "recv.buf" && !(hv.Known && hv.Nil) {
+					problems = append(problems, "the new connection's buffer is "+hv.Desc+", a slice of the receiver's (pooled) buffer: a tee branch still matching on it after the main chain returned reads what the next connection prefetched into the recycled array; tee's two wrapped connections prefetch into one array")
+				}
+			}
+		}
+		r.check(len(problems) == 0, rule, wrapName, sc.Name, c.pos(fn.Pos()), fmt.Sprintf("%d path(s): the new connection has storage of its own", len(paths)), strings.Join(dedup(problems), "; "))
+	}
+}
